@@ -900,7 +900,7 @@ func (s *Sim) checkBind(p *corev1.Pod, node string, err error, pre map[string]wo
 				}
 			}
 		}
-	} else if len(lists) > 0 && (clean || s.faultMode == world.FailAt) && !s.provFault {
+	} else if len(lists) > 0 && (clean || (s.faultMode == world.FailAt && s.injectedOnCreate())) && !s.provFault {
 		// failed bind of a multi-range pod: nothing new may stay allocated
 		s.Counts["c08_multi_binds_failed"]++
 		post := s.W.Dump()
@@ -922,4 +922,15 @@ func (s *Sim) checkBind(p *corev1.Pod, node string, err error, pre map[string]wo
 			s.alarm("C06", "bind-failed-on-filter-approved-node", fmt.Sprintf("filter offered %s for pod %s and nothing changed, but bind failed: %v", node, p.Name, err))
 		}
 	}
+}
+
+// injectedOnCreate reports whether the fault of the current operation hit a FloatingIP object creation (the fault
+// class C08 quantifies over).
+func (s *Sim) injectedOnCreate() bool {
+	for _, h := range s.W.In.Hit {
+		if strings.Contains(h, " create floatingips/") {
+			return true
+		}
+	}
+	return false
 }
